@@ -76,7 +76,10 @@ def generator_sites(mod, repo=None):
                     q = parents.get(u)
                     in_loop = False
                     while q is not None and q is not fn:
-                        if isinstance(q, (ast.For, ast.While)) and u is not getattr(q, "iter", None) and not any(p.targets[0] is y for y in ast.walk(q)):
+                        # the iterable expression of a `for` is evaluated once, before the first iteration: a read anywhere inside it
+                        # (`for a, b in zip(xs, gen)`) is not a read inside the loop
+                        in_header = isinstance(q, ast.For) and any(u is y for y in ast.walk(q.iter))
+                        if isinstance(q, (ast.For, ast.While)) and not in_header and not any(p.targets[0] is y for y in ast.walk(q)):
                             in_loop = True
                         q = parents.get(q)
                     k = _kept(repo, mod, qn, parents, u) if repo is not None else None
